@@ -234,5 +234,5 @@ class UniqueOutcome(Lemma):
                 ('no-unrecoverable-exit-no-failure-of-its-own', Implies(And(args[0]), Not(x)))]
 
 
-TARGETS = [TransitionToFinalState(), PostMortem(), FinishedCheckOnFailure(), StageStateRule(), RunVerdict()]
+TARGETS = [TransitionToFinalState(), PostMortem(), FinishedCheckOnFailure(), StageStateRule(), RunVerdict(), ScheduleShutdownRule()]
 LEMMAS = [UniqueOutcome()]
